@@ -252,7 +252,9 @@ Definition run_1703 (input impl : sx) : sx :=
   end.
 
 (* kind 1704: the REAL on-disk walker under a filter with a Map table.
-   input = (view map-excluded-paths includes excludes [extra-links]): the harness materialises
+   input = (view map-excluded-paths includes excludes [extra-links [layer]]) (layer: which FS
+   layers the harness puts between the walker and WriteTar - filter, none, reset only, ... ; the
+   expectation below does not depend on it; with no filter layer the harness sends empty tables): the harness materialises
    the view on disk (then makes the extra hard links ((src dst)...): second names of fifos,
    devices, symlinks, which the shared materialiser does not create), takes an INDEPENDENT lstat/readlink/llistxattr snapshot with file contents, and runs
    fsutil.NewFS(dir) -> NewFilterFS{Include, Exclude, Map: exclude the listed paths} -> WriteTar ->
